@@ -17,7 +17,8 @@ RULE = ('each case = 30-250 steps interleaving send_data (with/without padding, 
         'INITIAL_WINDOW_SIZE up/down/into negative windows and MAX_FRAME_SIZE, over 1-12 streams incl. pushed ones; '
         'non-trivial = at least one DATA frame checked against the shadow and one probe judged; distinct = hash of the step list')
 MINIMA = {'data_frames_checked': 5000, 'window_queries_checked': 20000, 'probe_exact_fit_ok': 500,
-          'probe_overrun_refused': 500, 'negative_window_states': 100, 'padded_data_checked': 500}
+          'probe_overrun_refused': 500, 'negative_window_states': 100, 'padded_data_checked': 500,
+          'reserved_streams_activated': 50}
 MAXW = 2 ** 31 - 1
 
 
@@ -55,6 +56,7 @@ def run_case(idx, rng, tier, rep):
     t = h.t
     sh = OutShadow()
     can_send = []        # streams E may send DATA on
+    reserved = []        # promised streams whose response has not started: they already own a send window
     steps = []
     ctx = {'alive': True}
 
@@ -94,15 +96,17 @@ def run_case(idx, rng, tier, rep):
             elif f.type == wire.RST_STREAM:
                 if f.stream_id in can_send:
                     can_send.remove(f.stream_id)
+                if f.stream_id in reserved:
+                    reserved.remove(f.stream_id)
             elif f.type == wire.GOAWAY:
                 ctx['alive'] = False
 
     def query_all():
-        for sid in list(can_send):
+        for sid in list(can_send) + list(reserved):
             r = t.call('local_flow_control_window', sid)
             if r.exc is not None:
                 if isinstance(r.exc, h2.exceptions.StreamClosedError):
-                    can_send.remove(sid)
+                    (can_send if sid in can_send else reserved).remove(sid)
                     continue
                 fail('C03:window-query-raises-' + type(r.exc).__name__, 'local_flow_control_window(%d) raised %r' % (sid, r.exc))
                 return
@@ -135,6 +139,9 @@ def run_case(idx, rng, tier, rep):
                         return
                     h.e_next += 2
                     sh.created(pid)
+                    if rng.random() < 0.6:
+                        reserved.append(pid)      # stays reserved (promised, response not started) for a while
+                        return
                     r = t.call('send_headers', pid, RESP)
                     if r.ok:
                         can_send.append(pid)
@@ -159,6 +166,13 @@ def run_case(idx, rng, tier, rep):
         if r < 0.07 and len(sh.stream) < 12:
             steps.append('open')
             open_stream()
+        elif r < 0.11 and reserved:
+            pid = reserved.pop(0)
+            res = t.call('send_headers', pid, RESP)
+            steps.append(('start-pushed-response', pid))
+            if res.ok:
+                can_send.append(pid)
+                rep.count('reserved_streams_activated')
         elif r < 0.40 and can_send:
             sid = rng.choice(can_send)
             w = sh.window(sid)
@@ -261,6 +275,8 @@ def run_case(idx, rng, tier, rep):
                 # stream error FLOW_CONTROL_ERROR: stream is gone
                 if sid in can_send:
                     can_send.remove(sid)
+                if sid in reserved:
+                    reserved.remove(sid)
                 rst = [f for f in res.frames if f.type == wire.RST_STREAM and f.stream_id == sid]
                 live_at_e = sid in h.c.streams and not h.c.streams[sid].closed
                 if not rst and live_at_e:
